@@ -152,6 +152,7 @@ func (in *c05Inst) Key(nd mc.Node) string {
 
 const (
 	wdAmount = 100000
+	wdAmountLarge = 3_000_000_000
 	wdPrice  = 10
 )
 
@@ -413,12 +414,16 @@ func (in *c05Inst) Step(nd mc.Node, op wOp, path []wOp, silent bool) mc.Node {
 	switch op.Kind {
 	case "withdraw":
 		id := op.IDs[0]
-		gotErr = k.ProcessBridgeRequest(bctx, goattypes.BridgeRequests{Withdraws: []*goattypes.WithdrawalRequest{{Id: id, Amount: wdAmount, TxPrice: wdPrice, Address: in.userAddr[id]}}})
+		amount := uint64(wdAmount)
+		if id == 2 {
+			amount = wdAmountLarge // above 2^64 / 1e10 satoshi: its wei value does not fit 64 bits
+		}
+		gotErr = k.ProcessBridgeRequest(bctx, goattypes.BridgeRequests{Withdraws: []*goattypes.WithdrawalRequest{{Id: id, Amount: amount, TxPrice: wdPrice, Address: in.userAddr[id]}}})
 		if id == 3 {
-			next.wd[id] = wdModel{Status: "canceled", Amount: wdAmount, MaxPrice: wdPrice}
+			next.wd[id] = wdModel{Status: "canceled", Amount: amount, MaxPrice: wdPrice}
 			next.refundNotices[id]++
 		} else {
-			next.wd[id] = wdModel{Status: "pending", Amount: wdAmount, MaxPrice: wdPrice, Script: in.userScr[id]}
+			next.wd[id] = wdModel{Status: "pending", Amount: amount, MaxPrice: wdPrice, Script: in.userScr[id]}
 		}
 	case "rbf":
 		id := op.IDs[0]
